@@ -4,6 +4,9 @@ import (
 	"context"
 	"time"
 
+	"github.com/aptpod/iscp-go/log"
+	"github.com/aptpod/iscp-go/wire"
+
 	"github.com/aptpod/iscp-go/errors"
 	"github.com/aptpod/iscp-go/internal/vf"
 	"github.com/aptpod/iscp-go/message"
@@ -265,5 +268,165 @@ func zzC16Receive() {
 	vf.Settle()
 	vf.Assert("cancelled-receive-returns", returned && e3 != nil)
 	conn.Close(ctx)
+	vf.Reach("end")
+}
+
+
+// C03.c: metadata of one source node is returned by ReadMetadata in the broker's order, each item
+// once — also when several filters of the stream name the same source node — under every
+// non-preemptive schedule of the forwarding goroutines.
+func zzC03cMetadataOrder() {
+	b := zzNewBroker()
+	zzServeStreams(b)
+	conn := zzConnect(b)
+	tr := b.last()
+	ctx := context.Background()
+	filters := []*message.DownstreamFilter{{SourceNodeID: "node", DataFilters: []*message.DataFilter{{Name: "#", Type: "#"}}}}
+	if vf.Choose("two.filters.same.node", 2) == 1 {
+		filters = append(filters, &message.DownstreamFilter{SourceNodeID: "node", DataFilters: []*message.DataFilter{{Name: "x", Type: "y"}}})
+	}
+	down, err := conn.OpenDownstream(ctx, filters)
+	vf.Assume(err == nil)
+	vf.Settle()
+	var alias uint32
+	for _, m := range tr.msgs() {
+		if r, ok := m.(*message.DownstreamOpenRequest); ok {
+			alias = r.DesiredStreamIDAlias
+		}
+	}
+	tr.push(&message.DownstreamMetadata{RequestID: 101, StreamIDAlias: alias, SourceNodeID: "node", Metadata: &message.BaseTime{SessionID: "s", Name: "first"}})
+	tr.push(&message.DownstreamMetadata{RequestID: 103, StreamIDAlias: alias, SourceNodeID: "node", Metadata: &message.BaseTime{SessionID: "s", Name: "second"}})
+	vf.Settle()
+	m1, e1 := down.ReadMetadata(ctx)
+	m2, e2 := down.ReadMetadata(ctx)
+	vf.Assert("both-metadata-read", e1 == nil && e2 == nil && m1 != nil && m2 != nil)
+	if m1 != nil && m2 != nil {
+		b1, ok1 := m1.Metadata.(*message.BaseTime)
+		b2, ok2 := m2.Metadata.(*message.BaseTime)
+		vf.Assert("metadata-unmodified", ok1 && ok2 && m1.SourceNodeID == "node" && m2.SourceNodeID == "node")
+		if ok1 && ok2 {
+			vf.Assert("metadata-in-broker-order", b1.Name == "first" && b2.Name == "second")
+		}
+	}
+	// each read acknowledged once with the item's request id, in order
+	var acks []*message.DownstreamMetadataAck
+	for _, m := range tr.msgs() {
+		if a, ok := m.(*message.DownstreamMetadataAck); ok {
+			acks = append(acks, a)
+		}
+	}
+	vf.Assert("one-ack-per-read-with-its-request-id", len(acks) == 2 && acks[0].RequestID == 101 && acks[1].RequestID == 103)
+	third := vf.Blocked(func() { down.ReadMetadata(ctx) })
+	vf.Assert("each-item-once", third)
+	conn.Close(ctx)
+	vf.Reach("end")
+}
+
+
+// C03.c2: the metadata fan-in of one stream (subscribeDownstreamMetadata + the wire dispatcher)
+// keeps the broker's order per source node under every non-preemptive schedule of its goroutines.
+func zzC03cFanIn() {
+	tr := wire.ZZNewFakeTransport()
+	wc := wire.ZZNewClientConn(tr, nil)
+	c := &Conn{wireConn: wc, logger: log.NewNop(), state: newConnState()}
+	alias := vf.U32("alias")
+	filters := []*message.DownstreamFilter{{SourceNodeID: "node"}}
+	switch vf.Choose("filters", 3) {
+	case 1:
+		filters = append(filters, &message.DownstreamFilter{SourceNodeID: "node"}) // same node twice
+	case 2:
+		filters = append(filters, &message.DownstreamFilter{SourceNodeID: "other"})
+	}
+	resCh, err := c.subscribeDownstreamMetadata(context.Background(), alias, filters)
+	vf.Assume(err == nil)
+	wire.ZZStartMetadataLoop(wc)
+	vf.Settle()
+	m1 := &message.DownstreamMetadata{RequestID: 1, StreamIDAlias: alias, SourceNodeID: "node"}
+	m2 := &message.DownstreamMetadata{RequestID: 3, StreamIDAlias: alias, SourceNodeID: "node"}
+	vf.AllSchedules(true)
+	wire.ZZDeliverMetadata(wc, m1)
+	wire.ZZDeliverMetadata(wc, m2)
+	vf.Settle()
+	vf.AllSchedules(false)
+	var got []*message.DownstreamMetadata
+	for i := 0; i < 3; i++ {
+		select {
+		case m := <-resCh:
+			got = append(got, m)
+		default:
+		}
+	}
+	vf.Assert("each-item-once", len(got) == 2)
+	if len(got) == 2 {
+		vf.Assert("broker-order-per-source-node", got[0] == m1 && got[1] == m2)
+	}
+	vf.Reach("end")
+}
+
+// C10.p: Close with a request in flight: the pending call fails promptly with the closed error, the
+// connection stays closed, later calls fail instead of blocking, and nothing is redialled.
+func zzC10pPendingAtClose() {
+	b := zzNewBroker()
+	b.handler = func(t *zzTr, m message.Message) bool { return true } // the broker never answers requests
+	conn := zzConnect(b)
+	ctx := context.Background()
+	var perr error
+	done := false
+	// (OpenUpstream and SendMetadata keep wireConnMu for the whole exchange; their interplay with
+	// Close is the subject of zzC08cCloseBounded)
+	go func() {
+		_, perr = conn.OpenDownstream(ctx, []*message.DownstreamFilter{{SourceNodeID: "n"}})
+		done = true
+	}()
+	vf.Settle()
+	vf.Assert("request-in-flight", !done)
+	dials := b.dials
+	cerr := conn.Close(ctx)
+	vf.Settle()
+	vf.Assert("close-ok", cerr == nil)
+	vf.Assert("pending-call-fails-with-closed-error", done && zzIsClosedErr(perr))
+	vf.Assert("stays-closed", conn.isClosed())
+	var lerr error
+	blocked := vf.Blocked(func() { lerr = conn.SendMetadata(ctx, &message.BaseTime{SessionID: "s", Name: "n2"}) })
+	vf.Assert("later-call-fails-instead-of-blocking", !blocked && zzIsClosedErr(lerr))
+	vf.Assert("never-reconnects", b.dials == dials)
+	vf.Reach("end")
+}
+
+
+// C08.c: Conn.Close is bounded by its context even while another request is in flight and the
+// broker stays silent (but keeps answering pings, so keepalive does not end the connection).
+func zzC08cCloseBounded() {
+	b := zzNewBroker()
+	b.handler = func(t *zzTr, m message.Message) bool { return true }
+	conn := zzConnect(b)
+	which := vf.Choose("pending", 3)
+	vf.Known("KF-C08-conn-close-waits-behind-inflight-request", which != 0)
+	pctx, pcancel := context.WithCancel(context.Background())
+	defer pcancel()
+	go func() {
+		switch which {
+		case 0:
+			conn.OpenDownstream(pctx, []*message.DownstreamFilter{{SourceNodeID: "n"}})
+		case 1:
+			conn.OpenUpstream(pctx, "session")
+		case 2:
+			conn.SendMetadata(pctx, &message.BaseTime{SessionID: "s", Name: "n"})
+		}
+	}()
+	vf.Settle()
+	cctx, ccancel := context.WithTimeout(context.Background(), 50*time.Millisecond)
+	defer ccancel()
+	returned := false
+	go func() {
+		conn.Close(cctx)
+		returned = true
+	}()
+	vf.Settle()
+	vf.Advance(60 * time.Millisecond)
+	vf.Assert("close-returns-by-its-context-deadline", returned)
+	pcancel()
+	vf.Settle()
+	vf.Assert("close-returns-once-the-request-ends", returned)
 	vf.Reach("end")
 }
